@@ -111,6 +111,7 @@ type State struct {
 	havocEpochBound Term // alloc counter at the last whole-heap havoc
 	unfolded map[string]bool // opaque spec applications whose defining equation is in the log
 	localMaps []localMap // maps made by this function whose reference never leaves it
+	calleeErrs []Term    // error values returned by callees on this path (clause errsfromcallees)
 	compBound map[string]Term // per component: alloc counter when it was last written or havoc'd
 	pendingBound []string
 	baseAlloc Term
@@ -171,6 +172,7 @@ func (st *State) clone() *State {
 		pendingBound: append([]string(nil), st.pendingBound...),
 		baseAlloc: st.baseAlloc,
 		localMaps: append([]localMap(nil), st.localMaps...),
+		calleeErrs: append([]Term(nil), st.calleeErrs...),
 		unfolded: make(map[string]bool, len(st.unfolded)),
 		havocEpochBound: st.havocEpochBound,
 		lastRange: st.lastRange,
